@@ -7,6 +7,7 @@ import Ptn.C16.ValueLoop
 import Ptn.C16.LoopDemo
 import Ptn.C16.TensorProduct
 import Ptn.C16.TensorProductValue
+import Ptn.C16.TensorProductGraph
 /-! Property theorems for C16. Only property theorems and non-vacuity examples live here. -/
 namespace Ptn.C16
 
@@ -580,6 +581,44 @@ theorem tensor_product_graph_partial :
     ∀ sites ∈ [[7, 1], [5], [1, 3, 5, 7], []],
       Ttndo.tpRecordOk kt sites = true := by
   decide +kernel
+
+open Ptn.C04 in
+/-- **`trace_ttndo` after the absorptions, EVERY tree and every set of sites (B53; PARTIAL for `tensor_product_graph`).**
+For every state tree with distinct identifiers and every list `sites`: on ANY network that has the nodes, the order,
+the root tensor and the bra tensors of the TTNDO of `from_ttns` and whose ket tensor at node `k` is the tensor
+`absorb_graph` produces at the named sites (last axis `gOpOut k`, one logged pair (ket physical leg, operator input))
+and the untouched ket tensor elsewhere (`Ttndo.tpKetT`), `trace_ttndo` never raises, leaves no free leg, and its record is
+`Ttndo.tpBlockBinds sites` (the trace record in the order of the code, with the operator's output leg facing the bra
+copy at exactly the named sites and the logged pair of every named site) plus the two root pairs.  Proof: the logged
+pairs of a left operand are carried in front of the record by every routine (`Ttndo.contractAnyNodes_pre`), the C04
+routines are label-generic (`contract_any_nodes_general`), tree induction `Ttndo.tpLoop_subtree`.
+Missing for `tensor_product_graph`: (a) the induction over the loop `absorbAll` showing that its result IS such a
+network (one step is `absorb_graph`), (b) `Ttndo.tpBlockBinds sites kt` is a permutation of `Ttndo.tpSpec kt sites`
+for distinct sites of the tree (a counting argument as `count_blockBinds`). -/
+theorem tensor_product_trace_graph_partial (t : Ptn.C04.Tree) (hnd : t.ids.Nodup) (sites : List Nat) (nd : Ptn.C04.Net)
+    (hr0 : nd.root = 0) (hord : nd.order = (Ttndo.ttndoNetK (Ttndo.ketTree t)).order)
+    (hnode : nd.node = (Ttndo.ttndoNetK (Ttndo.ketTree t)).node)
+    (hrt : nd.tensor 0 = some (T.fresh [Ttndo.rootKetLeg, Ttndo.rootBraLeg, Ttndo.rootOpenLeg]))
+    (hket : ∀ e ∈ Ptn.C04.Tree.info (some 0) (Ttndo.ketTree t),
+      nd.tensor e.1 = some (Ttndo.tpKetT sites e.1 ⟨e.2.1, e.2.2⟩))
+    (hbra : ∀ e ∈ Ptn.C04.Tree.info (some 0) (Ttndo.ketTree t), nd.tensor (e.1 + 1) = some (gBraT e.1 ⟨e.2.1, e.2.2⟩)) :
+    Ttndo.traceTtndo nd = some ⟨[], Ttndo.tpBlockBinds sites (Ttndo.ketTree t) ++
+      [(Ttndo.rootKetLeg, Leg.gKet (Ttndo.ketTree t).id 0), (Ttndo.rootBraLeg, Leg.gBra (Ttndo.ketTree t).id 0)]⟩ := by
+  obtain ⟨h1, h2⟩ := Ttndo.ketTree_wf t hnd
+  exact Ttndo.tpTrace_eq sites (Ttndo.ketTree t) h1 h2 nd hr0 hord hnode hrt hket hbra
+
+open Ptn.C04 in
+/-- non-vacuity: the network the model's absorption loop produces on the state tree `0 — 1` for the sites `[3]`
+satisfies every hypothesis, and the record is the model's own record -/
+example : ∃ nd, Ttndo.absorbAll [3] (Ttndo.ttndoNetK (Ttndo.ketTree (.node 0 [.node 1 []]))) = some nd ∧
+    nd.root = 0 ∧ nd.order = (Ttndo.ttndoNetK (Ttndo.ketTree (.node 0 [.node 1 []]))).order ∧
+    (∀ e ∈ Ptn.C04.Tree.info (some 0) (Ttndo.ketTree (.node 0 [.node 1 []])),
+      nd.node e.1 = (Ttndo.ttndoNetK (Ttndo.ketTree (.node 0 [.node 1 []]))).node e.1 ∧
+      nd.tensor e.1 = some (Ttndo.tpKetT [3] e.1 ⟨e.2.1, e.2.2⟩) ∧
+      nd.tensor (e.1 + 1) = some (gBraT e.1 ⟨e.2.1, e.2.2⟩)) ∧
+    Ttndo.traceTtndo nd = some ⟨[], Ttndo.tpBlockBinds [3] (Ttndo.ketTree (.node 0 [.node 1 []])) ++
+      [(Ttndo.rootKetLeg, Leg.gKet 1 0), (Ttndo.rootBraLeg, Leg.gBra 1 0)]⟩ :=
+  ⟨_, rfl, by decide⟩
 
 /-! ## Value level of `tensor_product_expectation_value` (B42)
 
